@@ -512,7 +512,11 @@ pub fn run(sc: &Value) -> Vec<String> {
     world.max_transport_reads = 5_000_000;
     let mut script = r.script.clone();
     // reference decoding for the text helpers
-    let text_ref: Option<String> = sc.get("text_ref").and_then(|x| x.as_str()).map(|s| s.to_string());
+    let mut text_ref: Option<String> = sc.get("text_ref").and_then(|x| x.as_str()).map(|s| s.to_string());
+    if gb(sc, "text_is_payload") {
+        // ASCII payload: the decoded text is the payload itself
+        text_ref = Some(String::from_utf8_lossy(&r.truth).to_string());
+    }
     if let Some(t) = &text_ref {
         script["textLen"] = json!(t.len());
     }
@@ -648,6 +652,7 @@ pub fn run(sc: &Value) -> Vec<String> {
                     emit(json!({"ev":"call","op":op,"buf":n}));
                     let label = gso(sc, "text_label").unwrap_or("utf-8").to_string();
                     let tr_bufs: Vec<usize> = ga(sc, "reader_bufs").iter().map(|x| x.as_u64().unwrap() as usize).collect();
+                    let mut partial: Option<Vec<u8>> = None;
                     let res = catch_unwind(AssertUnwindSafe(|| -> Result<Vec<u8>, String> {
                         match op.as_str() {
                             "bytes" => rp.bytes().map_err(|e| err_kind(&e)),
@@ -662,10 +667,13 @@ pub fn run(sc: &Value) -> Vec<String> {
                                 .map(|s| s.into_bytes())
                                 .map_err(|e| err_kind(&e)),
                             _ => {
-                                // streaming text reader with the scenario's read sizes
+                                // streaming text reader with the scenario's read sizes; after an error it reads on
+                                // (`extra` more times): what was handed out must stay a prefix
                                 let mut tr = rp.text_reader();
                                 let mut out = Vec::new();
                                 let mut i = 0usize;
+                                let mut errors = 0usize;
+                                let extra = gu(sc, "extra");
                                 loop {
                                     let bs = if tr_bufs.is_empty() { 4096 } else { tr_bufs[i % tr_bufs.len()].max(1) };
                                     i += 1;
@@ -674,8 +682,21 @@ pub fn run(sc: &Value) -> Vec<String> {
                                         Ok(0) => break,
                                         Ok(k) => out.extend_from_slice(&b[..k]),
                                         Err(e) if e.kind() == io::ErrorKind::Interrupted => continue,
-                                        Err(e) => return Err(io_err_kind(&e)),
+                                        Err(e) => {
+                                            errors += 1;
+                                            if errors > extra {
+                                                partial = Some(out.clone());
+                                                return Err(io_err_kind(&e));
+                                            }
+                                        }
                                     }
+                                    if i > 2_000_000 {
+                                        panic!("VERIF-HANG: text reader does not terminate");
+                                    }
+                                }
+                                if errors > 0 {
+                                    partial = Some(out.clone());
+                                    return Err("Io:after-error".into());
                                 }
                                 Ok(out)
                             }
@@ -695,7 +716,12 @@ pub fn run(sc: &Value) -> Vec<String> {
                             emit(json!({"ev":"ret","op":op,"res":"ok","n":got.len(),"lcp":l,"kind":"","status":0,"pulled":pulled()}));
                         }
                         Ok(Err(k)) => {
-                            emit(json!({"ev":"ret","op":op,"res":"err","n":0,"lcp":0,"kind":k,"status":0,"pulled":pulled()}));
+                            // what a streaming helper handed out before (and after) the error
+                            let (n, l) = match (&partial, gb(sc, "text_is_payload")) {
+                                (Some(p), true) => (p.len(), lcp(p, &truth[cursor.min(truth.len())..])),
+                                _ => (0, 0),
+                            };
+                            emit(json!({"ev":"ret","op":op,"res":"err","n":n,"lcp":l,"kind":k,"status":0,"pulled":pulled()}));
                         }
                         Err(p) => {
                             emit(json!({"ev":"ret","op":op,"res":"panic","n":0,"lcp":0,"kind":panic_msg(&p),"status":0,"pulled":pulled()}));
